@@ -460,6 +460,100 @@ func transportScenario(name string, pollers int, senders [][]int, discard bool, 
 	return sc
 }
 
+// timedWriter: the client reads slowly - writing a response takes W of virtual time. takenAt is the moment
+// the handler starts to write, i.e. came back from its poll with the batch.
+type timedWriter struct {
+	*httptest.ResponseRecorder
+	takenAt *time.Duration
+	w       time.Duration
+	e       *vsched.Exec
+}
+
+func (w timedWriter) begin() {
+	if *w.takenAt < 0 {
+		*w.takenAt = w.e.Clock()
+		vsched.Sleep(w.w)
+	}
+}
+func (w timedWriter) WriteHeader(code int)        { w.begin(); w.ResponseRecorder.WriteHeader(code) }
+func (w timedWriter) Write(p []byte) (int, error) { w.begin(); return w.ResponseRecorder.Write(p) }
+
+// ---- 4. two overlapping polls of one transport, a client that reads slowly, packets sent every W/2:
+// a packet sent while one response is still being written is returned at once by the OTHER pending poll
+// (it is unrelated traffic the packet must not wait for). At every send instant one of the two polls is
+// pending or arrives, so every packet must leave the queue at the instant it was sent.
+func transportSlowClientScenario(name string, batches int, bound int) *vx.Scenario {
+	const W = time.Second
+	sc := &vx.Scenario{Name: name, PreemptOnly: true, Bound: bound, Horizon: 10 * pollTimeout}
+	sc.Body = func(e *vsched.Exec) func() vx.Result {
+		cb := transport.NewCallbacks()
+		tr := polling.NewServerTransport(cb, 0, pollTimeout)
+		var obs vsched.Var
+		got := map[string]time.Duration{}
+		dups := 0
+		received := 0
+		for c := 0; c < 2; c++ {
+			who := fmt.Sprintf("poller%d", c)
+			vsched.GoQuiet(who, func() {
+				for {
+					stop := false
+					obs.Do(func() { stop = received >= batches })
+					if stop {
+						return
+					}
+					rec := httptest.NewRecorder()
+					req, _ := http.NewRequest("GET", "http://x/engine.io/?EIO=4&transport=polling&sid=s", nil)
+					takenAt := time.Duration(-1)
+					tr.ServeHTTP(timedWriter{rec, &takenAt, W, e}, req)
+					body := rec.Body.String()
+					obs.Do(func() {
+						if body == "" {
+							return
+						}
+						for _, part := range strings.Split(body, "\x1e") {
+							if _, ok := got[part]; ok {
+								dups++
+							}
+							got[part] = takenAt
+							received++
+						}
+					})
+				}
+			})
+		}
+		vsched.GoQuiet("sender", func() {
+			for i := 0; i < batches; i++ {
+				tr.Send(msg(fmt.Sprintf("b%d", i)))
+				vsched.Sleep(W / 2)
+			}
+		})
+		return func() vx.Result {
+			var r vx.Result
+			var late []string
+			for i := 0; i < batches; i++ {
+				sent := time.Duration(i) * W / 2
+				at, ok := got[fmt.Sprintf("4b%d", i)]
+				if !ok {
+					r.Violate("polling transport: packets lost or duplicated", "slow-reading client: packet b%d never returned by a poll (returned: %v)", i, got)
+					continue
+				}
+				if at > sent {
+					late = append(late, fmt.Sprintf("b%d sent at %v left the queue at %v", i, sent, at))
+				}
+			}
+			if dups > 0 {
+				r.Violate("polling transport: packets lost or duplicated", "slow-reading client: %d packets returned twice", dups)
+			}
+			r.Outcome = fmt.Sprintf("delivered=%d late=%d end=%v", len(got), len(late), e.Clock())
+			if len(late) > 0 {
+				r.Violate("pollQueue: queued packet waited for unrelated traffic although a poll was pending", "two overlapping polls, every response takes %v to write, a packet every %v: %v", W, W/2, late)
+			}
+			return r
+		}
+	}
+	return sc
+}
+
 func scenarios(tier string) []*vx.Scenario {
 	big := 3 // preemption bound for the scenarios whose unbounded space does not fit the quick budget
 	// thorough: iterative preemption bounding up to 8 for the spaces that do not fit the budget unbounded
@@ -490,6 +584,7 @@ func scenarios(tier string) []*vx.Scenario {
 		transportScenario("transport/1poller-1sender-discard", 1, [][]int{{1}}, true, -1),
 		transportScenario("transport/2pollers-1sender-thrice", 2, [][]int{{1, 1, 1}}, false, big),
 		transportScenario("transport/2pollers-1sender-twice-discard", 2, [][]int{{1, 1}}, true, big-1),
+		transportSlowClientScenario("transport/2pollers-slow-reading-client-3-packets", 3, big),
 	}
 	if tier == "thorough" {
 		s = append(s,
